@@ -776,7 +776,8 @@ def gen_large(draw, tier="quick"):
         "cls": draw(st.sampled_from(["Gaussian", "Exponential", "Matern"])),
         "dim": dim,
         "mode_no": draw(st.sampled_from([1000, 1000, 4000])),
-        "npts": draw(st.sampled_from([21000, 26000])),
+        # requests well beyond 2^16 points too (with fewer modes: the cost is mode_no x points)
+        "npts": draw(st.sampled_from([21000, 26000, 70000, 140000])),
         "seed": draw(st.integers(0, 2**31 - 1)),
         "mean_u": draw(st.floats(0.3, 3.0)),
         "structured": draw(st.booleans()),
@@ -785,6 +786,9 @@ def gen_large(draw, tier="quick"):
 
 def check_large(case, rec):
     from oracles import kernels as ok
+
+    if case["npts"] > 30000:
+        case = dict(case, mode_no=[300, 150][case["npts"] > 100000])
 
     dim = case["dim"]
     tags = {"model": case["cls"], "dim": dim, "mode_no": case["mode_no"], "kind": "large_request"}
@@ -903,5 +907,5 @@ SUBS = [
     Sub("fd_div", gen_fd, check_fd, quick=450, thorough=7500, shards_quick=3, shards_thorough=3),
     Sub("projector", gen_projector, check_projector, quick=600, thorough=9000, shards_quick=3, shards_thorough=3),
     Sub("moments", gen_moments, check_moments, quick=24, thorough=120, shards_quick=5, shards_thorough=6, shrink_quick=False),
-    Sub("large_request", gen_large, check_large, quick=6, thorough=40, shards_quick=1, shards_thorough=2, shrink_quick=False),
+    Sub("large_request", gen_large, check_large, quick=10, thorough=40, shards_quick=1, shards_thorough=2, shrink_quick=False),
 ]
